@@ -3,7 +3,6 @@
    and requests the Go harness ran through real WAFs, and compares the fired rules (in order)
    and their match data (as multisets: Go's map iteration order is not observable here). *)
 From Verif Require Import Base Transform CaseMap Match MatchFold.
-From VerifGen Require Import FactsC14.
 Open Scope N_scope.
 
 Inductive case :=
@@ -43,7 +42,9 @@ Fixpoint fired_eqb (a b : list fired) : bool :=
   | _, _ => false
   end.
 
-Definition ok (c : case) : bool :=
+(* lower_table: Go's unicode.ToLower as a range table; the shards pass VerifGen.FactsC14.lower_table (regenerated
+   on every run); theories never import generated files, so that a fresh tree builds before any translator ran *)
+Definition ok (lower_table : list case_range) (c : case) : bool :=
   match c with
   | Case q rules obs => fired_eqb (run_tx csem ord_id q rules) obs
   | CaseR q rules rms obs => fired_eqb (run_tx csem ord_id q (remove_rules rms rules)) obs
@@ -58,4 +59,4 @@ Definition ok (c : case) : bool :=
   | COp o v res => Bool.eqb (op_small o v) res
   end.
 
-Definition mismatches (l : list case) : list nat := mismatches_of ok l.
+Definition mismatches (lower_table : list case_range) (l : list case) : list nat := mismatches_of (ok lower_table) l.
